@@ -246,21 +246,47 @@ def c05_translators(n, seed, procs):
         A = [[rnd.randint(-3, 3) for _ in range(npt)] for _ in range(npt)]
         G = [[Fr(A[i][j] + A[j][i]) for j in range(npt)] for i in range(npt)]
         Fv = [Fr(rnd.randint(-4, 4)) for _ in range(ne)]
-        want = Fr(0)
-        if e.get_is_leaf(): want = Fv[e.counter]
+        # per key (unordered pair of points / leaf expression / constant): the weight the expression gives it, exactly; floating
+        # point may round when several addends of very different magnitude land on one key (tolerance relative to the addends
+        # of THAT key only, so that an isolated tiny coefficient may never disappear)
+        wantk, addk = {}, {}
+        def put(k, c):
+            wantk[k] = wantk.get(k, Fr(0)) + Fr(c); addk[k] = addk.get(k, Fr(0)) + abs(Fr(c))
+        if e.get_is_leaf(): put(("f", e.counter), 1)
         else:
             for k, c in e.decomposition_dict.items():
-                if isinstance(k, Expression): want += Fr(c) * Fv[k.counter]
-                elif isinstance(k, tuple): want += Fr(c) * G[k[0].counter][k[1].counter]
-                else: want += Fr(c)
+                if isinstance(k, Expression): put(("f", k.counter), c)
+                elif isinstance(k, tuple): put(("g",) + tuple(sorted((k[0].counter, k[1].counter))), c)
+                else: put(("one",), c)
+        def value(wk):
+            t = Fr(0)
+            for k, c in wk.items():
+                t += c * (Fv[k[1]] if k[0] == "f" else G[k[1]][k[2]] if k[0] == "g" else 1)
+            return t
+        want = value(wantk)
         Gw, Fw, cons = expression_to_matrices(e)
-        dense = sum(Fr(float(Gw[i, j])) * G[i][j] for i in range(npt) for j in range(npt)) + sum(Fr(float(Fw[i])) * Fv[i] for i in range(ne)) + Fr(float(cons))
+        densek = {}
+        for i in range(npt):
+            for j in range(i, npt):
+                c = Fr(float(Gw[i, j])) + (Fr(float(Gw[j, i])) if j != i else 0)
+                if c != 0 or ("g", i, j) in wantk: densek[("g", i, j)] = c
+        for i in range(ne):
+            if Fw[i] != 0 or ("f", i) in wantk: densek[("f", i)] = Fr(float(Fw[i]))
+        if cons != 0 or ("one",) in wantk: densek[("one",)] = Fr(float(cons))
         Ai, Aj, Av, ai, av, alpha = expression_to_sparse_matrices(e)
-        sparse = Fr(float(alpha)) + sum(Fr(float(v)) * Fv[int(i)] for i, v in zip(ai, av))
-        lower_ok = all(int(i) >= int(j) for i, j in zip(Ai, Aj)); dup_ok = len({(int(i), int(j)) for i, j in zip(Ai, Aj)}) == len(Ai)
+        sparsek = {}
         for i, j, v in zip(Ai, Aj, Av):
-            i, j = int(i), int(j)
-            sparse += Fr(float(v)) * (G[i][i] if i == j else G[i][j] + G[j][i])
+            i, j = int(i), int(j); k = ("g", min(i, j), max(i, j))
+            sparsek[k] = sparsek.get(k, Fr(0)) + Fr(float(v)) * (1 if i == j else 2)
+        for i, v in zip(ai, av): sparsek[("f", int(i))] = sparsek.get(("f", int(i)), Fr(0)) + Fr(float(v))
+        if alpha != 0 or ("one",) in wantk: sparsek[("one",)] = Fr(float(alpha))
+        def agree(gotk):
+            for k in set(gotk) | set(wantk):
+                if abs(gotk.get(k, Fr(0)) - wantk.get(k, Fr(0))) > Fr(1, 2 ** 49) * addk.get(k, Fr(0)): return False
+            return True
+        dense = value(densek) if not agree(densek) else want
+        sparse = value(sparsek) if not agree(sparsek) else want
+        lower_ok = all(int(i) >= int(j) for i, j in zip(Ai, Aj)); dup_ok = len({(int(i), int(j)) for i, j in zip(Ai, Aj)}) == len(Ai)
         sym_ok = bool(np.array_equal(Gw, Gw.T))
         key = str(sorted((str(k) if not isinstance(k, tuple) else "ip" + str((k[0].counter, k[1].counter)) if False else type(k).__name__) for k in (e.decomposition_dict or {})))
         distinct.add((len(e.decomposition_dict or {}), key, npt))
